@@ -6,13 +6,27 @@ import (
 	"golang.org/x/tools/go/ssa"
 )
 
-// internal/bytealg helpers that have no Go body (assembly). Contract: concrete arguments only, evaluated with the
-// real library; symbolic arguments are reported as unsupported rather than approximated.
+// internal/bytealg helpers that have no Go body (assembly). Contract: concrete arguments are evaluated with the real
+// library; IndexString of a string of symbolic bytes (concrete length) for a concrete needle is the exact ite chain
+// "first i with s[i:i+len(sub)] == sub, else -1", case-split by concretize like IndexByteString; anything else
+// (atoms, symbolic needle) is reported as unsupported rather than approximated.
 func init() {
 	extraIntrinsics = append(extraIntrinsics, func(e *Engine) {
 		e.intr["internal/bytealg.IndexString"] = func(e *Engine, st *State, cc *ssa.CallCommon, a []Value) Value {
 			s, ok1 := a[0].(StringVal).Concrete()
 			sub, ok2 := a[1].(StringVal).Concrete()
+			if !ok1 && ok2 && a[0].(StringVal).Atom == nil && len(sub) > 0 {
+				sv := a[0].(StringVal)
+				res := ConstBV(^uint64(0), 64) // -1
+				for i := len(sv.Bytes) - len(sub); i >= 0; i-- {
+					var eqs []*Term
+					for k := 0; k < len(sub); k++ {
+						eqs = append(eqs, Eq(sv.Bytes[i+k], ConstBV(uint64(sub[k]), 8)))
+					}
+					res = Ite(And(eqs...), ConstBV(uint64(i), 64), res)
+				}
+				return e.concretize(st, res)
+			}
 			if !ok1 || !ok2 {
 				unsupported("bytealg.IndexString with symbolic arguments")
 			}
